@@ -595,12 +595,14 @@ class PKey:
         except base64.binascii.Error:
             raise SSHException("Can't parse DEK-info salt in private key file")
         key = util.generate_key_bytes(md5, salt, password, keysize)
-        decryptor = Cipher(
-            cipher(key), mode(salt), backend=default_backend()
-        ).decryptor()
-        decrypted_data = decryptor.update(data) + decryptor.finalize()
-        unpadder = padding.PKCS7(cipher.block_size).unpadder()
+        # ValueError: salt of the wrong size for the cipher, ciphertext not a
+        # multiple of the block size, or bad padding after decryption
         try:
+            decryptor = Cipher(
+                cipher(key), mode(salt), backend=default_backend()
+            ).decryptor()
+            decrypted_data = decryptor.update(data) + decryptor.finalize()
+            unpadder = padding.PKCS7(cipher.block_size).unpadder()
             return unpadder.update(decrypted_data) + unpadder.finalize()
         except ValueError:
             raise SSHException("Bad password or corrupt private key file")
